@@ -13,6 +13,7 @@ import (
 
 type vBinder struct {
 	log  []int
+	raw  []byte
 	fail int // index of the SetConfig call that fails, -1 = none
 	n    int
 }
@@ -22,7 +23,8 @@ func (b *vBinder) SetConfig(c []byte) error {
 	if b.n-1 == b.fail {
 		return errV
 	}
-	b.log = append(b.log, int(c[0]))
+	b.log = append(b.log, b.n-1)
+	b.raw = append(b.raw, c[0])
 	return nil
 }
 func (b *vBinder) Get(path string) any      { return nil }
@@ -35,6 +37,7 @@ type vLoad struct {
 	o     int
 	empty bool
 	fail  bool
+	doc   byte // content of the document (two loaders may deliver identical documents)
 	calls *[]int
 }
 
@@ -46,7 +49,7 @@ func (l *vLoad) LoadConfig() ([]byte, error) {
 	if l.empty {
 		return nil, nil
 	}
-	return []byte{byte(l.id)}, nil
+	return []byte{l.doc}, nil
 }
 
 type vLoadPrio struct{ vLoad }
@@ -71,10 +74,12 @@ func VerifC15Load() {
 	empty := make([]bool, n)
 	failing := nd.Choose(n + 1) // which loader fails, n = none
 	var all []Loader
+	var docs []byte
 	for i := 0; i < n; i++ {
 		class[i] = nd.Choose(3)
 		empty[i] = nd.Bool()
-		base := vLoad{id: i, empty: empty[i], fail: i == failing, calls: &calls}
+		base := vLoad{id: i, empty: empty[i], fail: i == failing, doc: nd.Byte(), calls: &calls}
+		docs = append(docs, base.doc)
 		var l Loader
 		switch class[i] {
 		case 0:
@@ -102,7 +107,11 @@ func VerifC15Load() {
 		c.SetLoaders(all[:n/2]...)
 		c.AddLoaders(all[n/2:]...)
 	}
+	savedAll := append([]Loader{}, all...)
 	err := c.Initialize()
+	for i := range all {
+		nd.Assert(all[i] == savedAll[i], "C15: loading never alters the caller's own list of sources (it may be used for another application)")
+	}
 	// the loaders are consulted in the ordering contract's sequence
 	for k := 1; k < len(calls); k++ {
 		a, d := calls[k-1], calls[k]
@@ -138,8 +147,38 @@ func VerifC15Load() {
 	nd.Assert(len(b.log) == len(want), "C15: every non-empty document reaches the binder exactly once")
 	if len(b.log) == len(want) {
 		for i := range want {
-			nd.Assert(b.log[i] == want[i], "C15: documents reach the binder in loader order")
+			nd.Assert(b.raw[i] == docs[want[i]], "C15: documents reach the binder in loader order, each one unchanged - also when another source delivered the same bytes")
 		}
+	}
+	// a second initialisation after more loaders were added consults ALL loaders again in contract order
+	if nd.Param("REINIT", 1) == 1 && n >= 2 {
+		extraClass := nd.Choose(3)
+		ebase := vLoad{id: n, doc: 1, calls: &calls}
+		var extra Loader
+		switch extraClass {
+		case 0:
+			ebase.o = int(nd.Int64())
+			extra = &vLoadPrio{ebase}
+		case 1:
+			ebase.o = int(nd.Int64())
+			extra = &vLoadOrd{ebase}
+		default:
+			extra = &vLoadPlain{ebase}
+		}
+		class = append(class, extraClass)
+		order = append(order, ebase.o)
+		c.AddLoaders(extra)
+		calls = nil
+		nd.Assert(c.Initialize() == nil, "C15: loading succeeds")
+		nd.Assert(len(calls) == n+1, "C15: every loader is consulted exactly once per initialisation")
+		for k := 1; k < len(calls); k++ {
+			a, d := calls[k-1], calls[k]
+			nd.Assert(class[a] <= class[d], "C12: loaders: priority-ordered before ordered before unordered")
+			if class[a] == class[d] && class[a] < 2 {
+				nd.Assert(order[a] <= order[d], "C12: loaders: Order never decreases inside a group")
+			}
+		}
+		nd.Cover("re-initialised after adding a loader")
 	}
 	if n >= 2 {
 		nd.Cover("several loaders")
